@@ -14,17 +14,17 @@ type pg struct {
 	keys    []string // point keys in play
 	probeID int
 	// weights / switches
-	illTyped   int  // 1-in-n chance (0 = never) of choosing an operand regardless of type
-	allowExit  bool
-	allowUse   []string // callee script names usable here
-	allowBuilt bool
-	maxDepth   int
-	loopBound  int
-	v2          bool // v2 language: every name must be defined, no point keys
-	noNestedUse bool // use() only as a statement of its own (never inside a larger expression)
-	iterM      int // > 0 while generating the body of `for _ in m` (Go leaves insertion during map iteration unspecified)
-	loopNest   int // current loop nesting (at most 2: keeps value growth bounded)
-	locals     []string // names never initialised by the prelude: created (block-locally) by assignment, read before/after (v1 only)
+	illTyped    int // 1-in-n chance (0 = never) of choosing an operand regardless of type
+	allowExit   bool
+	allowUse    []string // callee script names usable here
+	allowBuilt  bool
+	maxDepth    int
+	loopBound   int
+	v2          bool     // v2 language: every name must be defined, no point keys
+	noNestedUse bool     // use() only as a statement of its own (never inside a larger expression)
+	iterM       int      // > 0 while generating the body of `for _ in m` (Go leaves insertion during map iteration unspecified)
+	loopNest    int      // current loop nesting (at most 2: keeps value growth bounded)
+	locals      []string // names never initialised by the prelude: created (block-locally) by assignment, read before/after (v1 only)
 }
 
 func (g *pg) pick(xs []string) string { return xs[g.rng.Intn(len(xs))] }
@@ -133,6 +133,9 @@ func (g *pg) exprT(t string, d int) string {
 		case 0:
 			return fmt.Sprintf("(%s + %s)", g.atomT("str"), g.atomT("str"))
 		case 1:
+			if g.rng.Intn(3) == 0 {
+				return fmt.Sprintf("s[%s:%s:%s]", g.pick([]string{"", "0", "1", "-1", "2"}), g.pick([]string{"", "1", "5", "-1"}), g.pick([]string{"1", "-1", "9223372036854775807", "9223372036854775806", "(-9223372036854775807 - 1)"}))
+			}
 			return fmt.Sprintf("s[%s:%s]", g.pick([]string{"", "0", "1", "-1"}), g.pick([]string{"", "1", "5", "-1"}))
 		case 2:
 			return `m["zz"]`
@@ -150,7 +153,7 @@ func (g *pg) exprT(t string, d int) string {
 			if g.rng.Intn(2) == 0 {
 				return fmt.Sprintf("%s[%s:%s]", g.atomT("list"), b(), b())
 			}
-			return fmt.Sprintf("%s[%s:%s:%s]", g.atomT("list"), b(), b(), g.pick([]string{"", "1", "-1", "2", "n"}))
+			return fmt.Sprintf("%s[%s:%s:%s]", g.atomT("list"), b(), b(), g.pick([]string{"", "1", "-1", "2", "n", "9223372036854775807", "9223372036854775806", "(-9223372036854775807 - 1)", "-9223372036854775807"}))
 		case 2:
 			return `m["b"]`
 		default:
